@@ -271,6 +271,14 @@ def cases(ctx):
     yield {'k': 'ihgo', 'toks': [], 'kinds': ['s', 'i'], 'ops': [['ex', [tok(('a', 1)), tok(('b', 1))]]]}
     yield {'k': 'ihgo', 'toks': [tok(('a', 1)), tok(('b', 1))], 'kinds': ['s', 'i'], 'ops': [['ap', tok(('a', 2))]]}
     yield {'k': 'go', 'start': {'auto': 2}, 'ops': [['ap', tok(1.0)], ['ap', tok(2)]]}
+    # stepped head slices of automatic indices (the derived index keeps labels that are no longer positions): every run
+    for n in range(3, 8):
+        for step in (2, 3):
+            for go in (False, True):
+                for op in ('iloc', 'getitem'):
+                    yield {'k': 'derive', 'base': {'flat': None, 'kind': 'int', 'go': go, 'auto': n}, 'op': op,
+                           'arg': {'pos': [], 'sl': [0, n, step], 'mask': [False] * n, 'shift': 0, 'asc': True, 'collide': False,
+                                   'which': 'slice', 'other': []}}
     for n in range(0, 7):
         for go in (False, True):
             yield {'k': 'auto', 'n': n, 'go': go, 'route': 'factory'}
